@@ -127,7 +127,12 @@ Definition hstep (cfg : hcfg) (h : hh) (o : hop) : hh + list Z :=
                    else if match_results (if xo_single xo then xo_aggfull xo else xo_agg xo) n out then
                      (if snd_ok then mk s (hh_live h) 0 false (hh_peak h) (hh_found h)
                       else inr (missed (v_violation (hh_i h :: -2 :: flatten_pairs (firstn n (xo_agg xo))))))
-                   else inr (verdict false snd_ok (hh_i h :: 0 :: flatten_pairs (firstn n (xo_agg xo))))
+                   else if snd_ok then
+                     inl {| hh_model := s; hh_live := hh_live h; hh_i := hh_i h + 1; hh_weak := hh_weak h;
+                            hh_tainted := hh_tainted h; hh_peak := hh_peak h; hh_found := hh_found h;
+                            hh_div := match hh_div h with Some d => Some d
+                                      | None => Some (hh_i h :: 0 :: flatten_pairs (firstn n (xo_agg xo))) end |}
+                   else inr (verdict false false (hh_i h :: 0 :: flatten_pairs (firstn n (xo_agg xo))))
                end
       end
   end.
